@@ -2,13 +2,132 @@
 pub mod tempfile {
     use vstd::prelude::*;
     use crate::spec::*;
+    use crate::shims::std::io;
+    use crate::shims::std::fs::{File, FileV, OpenMode, file_write_post};
+    use crate::shims::std::path::{Path, PathArg};
+
     #[verifier::external_body]
     pub struct NamedTempFile { f: u8 }
     /// the path of the temporary file (fixed for the life of the handle)
     impl View for NamedTempFile { type V = PathV; uninterp spec fn view(&self) -> PathV; }
+    pub struct PersistError { pub error: io::Error, pub file: NamedTempFile }
+
+    /// the descriptor view of a temp file handle: read+write, not O_APPEND; `pos` is the
+    /// number of bytes written through it so far
+    pub uninterp spec fn tmp_pos(t: NamedTempFile) -> int;
+    pub open spec fn tmp_mode() -> OpenMode { OpenMode { read: true, write: true, append: false, create: true, truncate: false } }
+
+    impl NamedTempFile {
+        /// ASSUMED: creates an EMPTY regular file with a FRESH random plain name directly
+        /// inside `dir` (O_EXCL): nothing existed at that path before.  Deletion of the file
+        /// when the handle is dropped is NOT modelled (see C14 in DESIGN.md).
+        #[verifier::external_body]
+        pub fn new_in<A: PathArg>(dir: A, Tracked(w): Tracked<&mut World>) -> (r: io::Result<NamedTempFile>)
+            ensures
+                old(w).healthy == final(w).healthy,
+                world_wf(*old(w)) ==> world_wf(*final(w)),
+                hist_ext(*old(w), *final(w)),
+                r is Err ==> final(w).fs == old(w).fs && final(w).hist == old(w).hist,
+                r is Ok ==> {
+                    let p = r->Ok_0@;
+                    &&& parent_of(p) == dir.pathv() && p.comps.len() == dir.pathv().comps.len() + 1
+                    &&& is_plain(p.comps.last())
+                    &&& !exists_at(old(w).fs, p)
+                    &&& final(w).fs == (Fs { files: old(w).fs.files.insert(p, Seq::<u8>::empty()), ..old(w).fs })
+                    &&& final(w).hist == old(w).hist.push(final(w).fs)
+                    &&& tmp_pos(r->Ok_0) == 0
+                },
+                old(w).healthy && old(w).fs.dirs.contains(dir.pathv()) ==> r is Ok,
+        { unimplemented!() }
+
+        /// ASSUMED: one atomic rename(2) that replaces `dest`; on failure nothing changes and
+        /// the handle comes back in the error
+        #[verifier::external_body]
+        pub fn persist<A: PathArg>(self, dest: A, Tracked(w): Tracked<&mut World>) -> (r: ::std::result::Result<File, PersistError>)
+            requires old(w).fs.files.contains_key(self@)
+            ensures
+                old(w).healthy == final(w).healthy,
+                world_wf(*old(w)) ==> world_wf(*final(w)),
+                hist_ext(*old(w), *final(w)),
+                r is Ok ==> final(w).fs == (Fs {
+                        files: old(w).fs.files.remove(self@).insert(dest.pathv(), old(w).fs.files[self@]),
+                        links: old(w).fs.links.remove(dest.pathv()), ..old(w).fs })
+                    && final(w).hist == old(w).hist.push(final(w).fs),
+                r is Err ==> final(w).fs == old(w).fs && final(w).hist == old(w).hist && r->Err_0.file@ == self@,
+                old(w).healthy && old(w).fs.dirs.contains(parent_of(dest.pathv())) && !old(w).fs.dirs.contains(dest.pathv()) ==> r is Ok,
+        { unimplemented!() }
+
+        /// like persist, but fails (AlreadyExists) when something exists at `dest`
+        #[verifier::external_body]
+        pub fn persist_noclobber<A: PathArg>(self, dest: A, Tracked(w): Tracked<&mut World>) -> (r: ::std::result::Result<File, PersistError>)
+            requires old(w).fs.files.contains_key(self@)
+            ensures
+                old(w).healthy == final(w).healthy,
+                world_wf(*old(w)) ==> world_wf(*final(w)),
+                hist_ext(*old(w), *final(w)),
+                r is Ok ==> !exists_at(old(w).fs, dest.pathv()) && final(w).fs == (Fs {
+                        files: old(w).fs.files.remove(self@).insert(dest.pathv(), old(w).fs.files[self@]), ..old(w).fs })
+                    && final(w).hist == old(w).hist.push(final(w).fs),
+                r is Err ==> final(w).fs == old(w).fs && final(w).hist == old(w).hist && r->Err_0.file@ == self@,
+        { unimplemented!() }
+
+        #[verifier::external_body]
+        pub fn path(&self) -> (r: &Path) ensures r@ == self@ { unimplemented!() }
+
+        /// the underlying descriptor (read+write, not append)
+        #[verifier::external_body]
+        pub fn as_file(&self) -> (r: &File) ensures r@.path == self@, r@.mode == tmp_mode() { unimplemented!() }
+    }
+
+    impl io::Write for NamedTempFile {
+        open spec fn wr_inv(&self, w: World) -> bool { w.fs.files.contains_key(self@) }
+        open spec fn wr_sink(&self, w: World) -> Seq<u8> { w.fs.files[self@] }
+        open spec fn wr_step(pre_s: Self, pre: World, post_s: Self, post: World) -> bool {
+            &&& post_s@ == pre_s@
+            &&& same_except(pre.fs, post.fs, pre_s@) && post.fs.dirs == pre.fs.dirs
+            &&& post.healthy == pre.healthy && hist_ext(pre, post) && (world_wf(pre) ==> world_wf(post))
+        }
+        #[verifier::external_body]
+        proof fn wr_step_refl(s: Self, w: World) {}
+        #[verifier::external_body]
+        proof fn wr_step_trans(a: Self, wa: World, b: Self, wb: World, c: Self, wc: World) {}
+
+        /// write(2) at the handle's offset.  Specified only when that offset is the end of the
+        /// file (true as long as every write to the file goes through this handle): the file
+        /// grows by the accepted prefix.  Otherwise (e.g. a pre-allocated file) the file's new
+        /// content is unspecified.
+        #[verifier::external_body]
+        fn write(&mut self, buf: &[u8], Tracked(w): Tracked<&mut World>) -> (r: io::Result<usize>)
+            ensures
+                final(self)@ == old(self)@,
+                final(w).healthy == old(w).healthy, hist_ext(*old(w), *final(w)), world_wf(*old(w)) ==> world_wf(*final(w)),
+                r is Ok ==> r->Ok_0 <= buf@.len() && tmp_pos(*final(self)) == tmp_pos(*old(self)) + r->Ok_0
+                    && final(w).fs.files.contains_key(old(self)@) && same_except(old(w).fs, final(w).fs, old(self)@) && final(w).fs.dirs == old(w).fs.dirs,
+                r is Ok && tmp_pos(*old(self)) == old(w).fs.files[old(self)@].len() ==>
+                    final(w).fs == (Fs { files: old(w).fs.files.insert(old(self)@, old(w).fs.files[old(self)@] + buf@.subrange(0, r->Ok_0 as int)), ..old(w).fs }),
+                r is Ok && old(w).healthy ==> r->Ok_0 == buf@.len(),
+                r is Err ==> final(w).fs == old(w).fs && tmp_pos(*final(self)) == tmp_pos(*old(self)),
+                old(w).healthy ==> r is Ok,
+                // intermediate states: the file holds its old bytes plus a prefix of what was accepted
+                forall|i: int| #![trigger final(w).hist[i]] old(w).hist.len() <= i < final(w).hist.len() ==>
+                    same_except(old(w).fs, final(w).hist[i], old(self)@) && final(w).hist[i].dirs == old(w).fs.dirs && final(w).hist[i].files.contains_key(old(self)@),
+        { unimplemented!() }
+        #[verifier::external_body]
+        fn flush(&mut self, Tracked(w): Tracked<&mut World>) -> (r: io::Result<()>)
+            ensures *final(self) == *old(self), *final(w) == *old(w), old(w).healthy ==> r is Ok,
+        { unimplemented!() }
+    }
 }
 pub mod memmap2 {
     use vstd::prelude::*;
+    use crate::spec::*;
+    /// a writable shared mapping of the whole file `path`, `len` bytes long
     #[verifier::external_body]
     pub struct MmapMut { m: u8 }
+    pub struct MmapV { pub path: PathV, pub len: nat }
+    impl View for MmapMut { type V = MmapV; uninterp spec fn view(&self) -> MmapV; }
+    impl MmapMut {
+        #[verifier::external_body]
+        pub fn len(&self) -> (r: usize) ensures r == self@.len { unimplemented!() }
+    }
 }
